@@ -8,7 +8,7 @@ RO_BOUND = {
     "S_U16": 4, "S_BOOL": 3, "S_BOOL3": 5, "S_SB": 8, "S_SB2": 14, "S_SS1": 10, "S_SE1": 10, "S_CE": 3,
     "S_SE16": 6, "S_PS": 9, "S_PE": 10, "V_U8": 8, "V_U8L32": 10, "V_U16": 10, "V_BOOL": 8, "V_SB": 14,
     "V_A3": 12, "V_P": 10, "STR8": 5, "STR16": 6, "STRP": 6, "X_U8": 6, "X_B": 6, "X_U16": 8, "X_V": 6,
-    "X_V16": 8, "X_S": 5, "X_P": 8, "U_S1": 12, "U_S2": 14, "U_S3": 6, "U_S4": 7, "U_S5": 12, "U_S6": 12, "X_V8L16": 8, "X_U8L16": 8, "U_PS": 10,
+    "X_V16": 8, "X_S": 5, "X_P": 8, "U_S1": 12, "U_S2": 14, "U_S3": 6, "U_S4": 7, "U_S5": 12, "U_S6": 12, "X_V8L16": 8, "X_U8L16": 8, "X_U8P": 8, "U_E5": 18, "U_PS": 10,
     "U_E1": 16, "U_E2": 8, "U_E3": 12, "U_E4": 14, "U_PE": 10,
 }
 SHAPE_DOC = {
@@ -23,21 +23,23 @@ SHAPE_DOC = {
     "U_S1": "unsized struct{u8,u16,FlatVec<u8,u8>}", "U_S2": "unsized struct{u32,FlatVec<u8,u8>}", "U_S3": "unsized struct{Bool,FlatString<u8>}",
     "U_S4": "unsized struct{u8,FlexVec<u8,u8>}", "U_S6": "unsized struct{u8,[u8;2],u16,FlatVec<u8,u8>} (field with size > alignment at an odd offset)",
     "X_V8L16": "FlexVec<FlatVec<u8,u8>,u16> (offset type more aligned than the items)",
-    "X_U8L16": "FlexVec<u8,u16> (offset type more aligned than the sized items)", "U_S5": "unsized struct{u16,FlatVec<u16,u8>}", "U_PS": "portable unsized struct{le::U16,FlatVec<le::U16,le::U16>}",
+    "X_U8L16": "FlexVec<u8,u16> (offset type more aligned than the sized items)",
+    "X_U8P": "FlexVec<u8,le::U16> (portable two-byte offset type, one-byte items)",
+    "U_E5": "unsized enum{A,B(u8,u32,u8)} (three-field variant with inner padding)", "U_S5": "unsized struct{u16,FlatVec<u16,u8>}", "U_PS": "portable unsized struct{le::U16,FlatVec<le::U16,le::U16>}",
     "U_E1": "unsized enum{A,B(u8,u16),C{u32,FlatVec<u8,u16>}} (the test suite's)", "U_E2": "unsized enum{A,B(Bool),C(FlatVec<u8,u8>)}",
     "U_E3": "unsized enum(tag u16){A,B(Bool,u16),C{u8,FlatVec<u8,u8>}}", "U_E4": "unsized enum{A,S(unsized struct)}",
     "U_PE": "portable unsized enum{A,B(le::U16),C(portable unsized struct)}",
 }
 # shapes whose harnesses cost <= ~150 s: quick tier
 RO_QUICK = SIZED + ["V_U8", "V_U8L32", "V_U16", "V_BOOL", "V_P", "V_A3", "STR8", "U_S1", "U_S2", "U_S5", "U_S6", "U_PS",
-                    "U_E1", "U_E2", "U_E3", "U_E4", "U_PE", "X_U8", "X_U16", "X_U8L16"]
+                    "U_E1", "U_E2", "U_E3", "U_E4", "U_E5", "U_PE", "X_U8", "X_U16", "X_U8L16", "X_U8P"]
 RO_THOROUGH = ["V_SB", "STR16", "STRP", "X_B", "X_V", "X_P", "U_S3", "U_S4", "X_V16", "X_S", "X_V8L16"]
 STRINGY = {"STR8", "STR16", "STRP", "U_S3", "X_S"}
 CONSTRAINED = {"S_BOOL", "S_BOOL3", "S_SB", "S_SB2", "S_SE1", "S_CE", "S_SE16", "S_PE", "V_BOOL", "V_SB", "STR8", "STR16",
                "STRP", "X_B", "X_U16", "X_V16", "X_S", "U_S3", "U_E1", "U_E2", "U_E3", "U_E4", "U_PE"}
-SLOW = {"X_U8": 900, "X_U16": 1100, "X_U8L16": 1100, "X_B": 1100, "X_V": 2700, "X_P": 1200, "U_S4": 900, "STR16": 900, "STRP": 900,
+SLOW = {"X_U8": 900, "X_U16": 1100, "X_U8L16": 1100, "X_U8P": 1100, "X_B": 1100, "X_V": 2700, "X_P": 1200, "U_S4": 900, "STR16": 900, "STRP": 900,
         "U_S3": 900, "V_SB": 900, "X_V16": 3000, "X_S": 3000, "X_V8L16": 3000, "STR8": 600, "V_A3": 600}
-BIGMEM = {"X_V": 14, "X_V16": 16, "X_S": 16, "X_V8L16": 16, "V_SB": 12, "X_P": 10, "X_U16": 10, "X_U8L16": 10, "X_B": 10}
+BIGMEM = {"X_V": 14, "X_V16": 16, "X_S": 16, "X_V8L16": 16, "V_SB": 12, "X_P": 10, "X_U16": 10, "X_U8L16": 10, "X_U8P": 10, "X_B": 10}
 
 
 def ro(family, what, shapes_quick=None, shapes_thorough=None, only=None):
@@ -98,13 +100,13 @@ prop("C19", "content errors are reported at the byte that is wrong",
 EM_COST = {"S_U16": 60, "S_SB": 60, "S_SS1": 60, "S_SE1": 90, "S_CE": 60, "S_SE16": 60, "S_PS": 60, "S_PE": 90,
            "V_U8": 300, "V_U8L32": 400, "V_U16": 400, "V_SB": 900, "V_A3": 600, "V_P": 400, "STR8": 600, "STR16": 900,
            "STRP": 900, "X_U8": 900, "X_U16": 1500, "X_V": 2400, "U_S1": 600, "U_S2": 600, "U_S6": 900, "U_S3": 900, "U_S4": 1200,
-           "U_PS": 600, "U_E1": 900, "U_E2": 400, "U_E3": 600, "U_E4": 800, "U_PE": 800}
+           "U_PS": 600, "U_E1": 900, "U_E5": 400, "X_U8P": 1200, "U_E2": 400, "U_E3": 600, "U_E4": 800, "U_PE": 800}
 EM_QUICK = ["S_U16", "S_SB", "S_SS1", "S_SE1", "S_CE", "S_SE16", "S_PS", "S_PE", "V_U8", "V_U8L32", "V_U16", "V_A3", "V_P",
-            "STR8", "U_S1", "U_S2", "U_S6", "U_PS", "U_E1", "U_E2", "U_E3", "U_E4", "U_PE", "X_U8"]
+            "STR8", "U_S1", "U_S2", "U_S6", "U_PS", "U_E1", "U_E2", "U_E3", "U_E4", "U_E5", "U_PE", "X_U8", "X_U8P"]
 EM_THOROUGH = ["V_SB", "STR16", "STRP", "X_U16", "X_V", "U_S3", "U_S4"]
 EM_BOUND = {"S_U16": 5, "S_SB": 9, "S_SS1": 12, "S_SE1": 12, "S_CE": 3, "S_SE16": 7, "S_PS": 9, "S_PE": 10, "V_U8": 6,
             "V_U8L32": 12, "V_U16": 10, "V_SB": 16, "V_A3": 11, "V_P": 10, "STR8": 6, "STR16": 8, "STRP": 7, "X_U8": 8,
-            "X_U16": 14, "X_V": 10, "U_S1": 11, "U_S2": 13, "U_S6": 13, "U_S3": 7, "U_S4": 9, "U_PS": 12, "U_E1": 20, "U_E2": 7,
+            "X_U16": 14, "X_V": 10, "U_S1": 11, "U_S2": 13, "U_S6": 13, "U_S3": 7, "U_S4": 9, "U_PS": 12, "U_E1": 20, "U_E5": 20, "X_U8P": 10, "U_E2": 7,
             "U_E3": 10, "U_E4": 13, "U_PE": 13}
 
 
@@ -120,8 +122,8 @@ def em(family, what, quick=None, thorough=None):
 
 ASG = {"V_U8_a": ("V_U8", 5, 400), "V_A3_a": ("V_A3", 9, 600), "STR8_a": ("STR8", 5, 900), "X_U8_a": ("X_U8", 6, 1500),
        "U_S1_a": ("U_S1", 10, 900), "U_S2_a": ("U_S2", 12, 900), "U_S3_a": ("U_S3", 6, 1500), "U_E1_a": ("U_E1", 16, 1500),
-       "U_E2_a": ("U_E2", 6, 600), "U_E3_a": ("U_E3", 10, 900), "U_E4_a": ("U_E4", 12, 1200), "U_PE_a": ("U_PE", 9, 900)}
-ASG_QUICK = ["V_U8_a", "V_A3_a", "U_S1_a", "U_E1_a", "U_E2_a", "U_E3_a", "U_PE_a"]
+       "U_E5_a": ("U_E5", 16, 900), "U_E2_a": ("U_E2", 6, 600), "U_E3_a": ("U_E3", 10, 900), "U_E4_a": ("U_E4", 12, 1200), "U_PE_a": ("U_PE", 9, 900)}
+ASG_QUICK = ["V_U8_a", "V_A3_a", "U_S1_a", "U_E1_a", "U_E2_a", "U_E3_a", "U_E5_a", "U_PE_a"]
 
 
 def asg(what):
@@ -145,7 +147,8 @@ prop("C15", "emplacement into any buffer: right error or success",
      "Same harnesses as C03: for every buffer length 0..bound and every address residue the result must be BadAlign (misaligned), InsufficientSize (aligned but smaller than the reference need) or Ok (then C03's post-conditions); no panic. default_in_place and FlatWrap::default_in_place are covered by the default family.",
      OUT_EM,
      em("emplace", "misaligned => BadAlign; too small => InsufficientSize; otherwise Ok; never a panic")
-     + em("default", "default_in_place: too small => InsufficientSize; otherwise Ok", quick=["V_U8", "U_S1", "U_E1", "X_U8", "S_SE1"], thorough=["STR8", "U_E3", "U_S4"]))
+     + em("default", "default_in_place: too small => InsufficientSize; otherwise Ok", quick=["V_U8", "U_S1", "U_E1", "X_U8", "S_SE1"], thorough=["STR8", "U_E3", "U_S4"])
+     + [M("SingleType_min_size"), M("TwoOrMore_min_size"), M("TwoOrMore_align")])
 
 prop("C20", "default_in_place produces the documented default state",
      "For every buffer length up to the bound and arbitrary prior contents default_in_place yields the documented default (reference decoding of the bytes and accessor view), with minimal size(), independent of the prior contents (the post-condition is a constant); for sized shapes it equals Default::default() emplaced as a literal; FlatWrap::default_in_place agrees.",
@@ -296,7 +299,7 @@ prop("C13", "a rejected container operation leaves the container as it was",
 
 # ---------------------------------------------------------------- layout
 LAYS = ["S_U16", "S_BOOL", "S_BOOL3", "S_SB", "S_SB2", "S_SS1", "S_SS2", "S_SE1", "S_CE", "S_SE16", "S_PS", "S_PE"]
-LAY = ["V_U8", "V_U8L32", "V_U16", "V_SB", "V_A3", "V_P", "STR8", "STR16", "X_U8", "X_U16", "X_V8L16", "U_S1", "U_S2", "U_S5", "U_S6",
+LAY = ["X_U8P", "U_E5", "V_U8", "V_U8L32", "V_U16", "V_SB", "V_A3", "V_P", "STR8", "STR16", "X_U8", "X_U16", "X_V8L16", "U_S1", "U_S2", "U_S5", "U_S6",
        "U_PS", "U_E1", "U_E2", "U_E3", "U_E4", "U_PE"]
 LAY_SLOW = {"V_SB", "X_V8L16", "STR16", "X_U16"}
 # engine M (lib/mir2smt.py, lib/smt_run.py): generic MIR -> SMT, symbolic SIZE / ALIGN of the field types
@@ -319,10 +322,11 @@ prop("C04", "computed layout equals the compiler's layout and the C rule",
      + ro("accept", "offsets of fields / enum payloads / container data: accessor content == content at the reference offsets", shapes_quick=["U_S1", "U_S6", "U_E1", "U_E3", "S_SE1", "V_A3"], shapes_thorough=["U_S2", "U_E4", "X_U16"])
      + em("emplace", "offsets used by the generated initialisers == reference offsets", quick=["U_S6", "U_E1"], thorough=["U_S1", "U_E3"]))
 
-PORT = {"S_PS_p": "S_PS", "S_PE_p": "S_PE", "V_P_p": "V_P", "STRP_p": "STRP", "U_PS_p": "U_PS", "U_PE_p": "U_PE"}
+PORT = {"X_U8P_p": "X_U8P", "S_PS_p": "S_PS", "S_PE_p": "S_PE", "V_P_p": "V_P", "STRP_p": "STRP", "U_PS_p": "U_PS", "U_PE_p": "U_PE"}
 prop("C17", "portable composites have a padding-free, address-independent image",
      "For each portable shape every value is emplaced at every address offset 0..3; construction must succeed as soon as the bytes suffice (alignment 1), size() is the sum of the parts, and the image decodes, at prefix-sum offsets with explicit byte orders, to the specified content; it maps back at the same odd address.",
      ["portable definitions outside the catalogue (6 shapes: struct, enum, FlatVec, FlatString, unsized struct, unsized enum)", "the negative compile check (a non-portable field is rejected by the compiler) is a compile result, not run here"],
      [H("lay::%s::portable" % m, 900, 10, "every value, address offsets 0..3, arbitrary prior contents; " + SHAPE_DOC[sh], "built at any address; padding-free image == reference serialisation",
-        tier="quick" if m in ("S_PS_p", "S_PE_p", "V_P_p", "U_PS_p") else "thorough") for m, sh in PORT.items()]
-     + ro("accept", "from_bytes at any address for alignment-1 shapes == reference decoding", shapes_quick=["S_PS", "S_PE", "V_P", "U_PS", "U_PE"], shapes_thorough=["STRP", "X_P"]))
+        tier="quick" if m in ("S_PS_p", "S_PE_p", "V_P_p", "U_PS_p", "X_U8P_p") else "thorough") for m, sh in PORT.items()]
+     + ro("accept", "from_bytes at any address for alignment-1 shapes == reference decoding", shapes_quick=["S_PS", "S_PE", "V_P", "U_PS", "U_PE", "X_U8P"], shapes_thorough=["STRP", "X_P"])
+     + em("default", "default_in_place of a portable FlexVec does not depend on prior buffer contents", quick=["X_U8P"], thorough=[]))
